@@ -110,3 +110,74 @@ def gen_grid(seed, tier):
             b.step(maxcells=14 if wide else 4, items=lambda: S(rng.choice(["a", "bb", ""])))
         out.append(b.ops)
     return out
+
+
+RICH = ["a", "word", "two words", " ", "é", "日本語", "ｗｉｄｅ", "é", "z​w", "‍", "\U0001F600",
+        "\U0001F468‍\U0001F469‍\U0001F467", "\U0001F1E9\U0001F1EA", "\U0001F44D\U0001F3FD", "\t", "", "́", "­",
+        "Ω≈ç√", "한글", "\r", "\x00", "﻿", "️", "a᷀b"]
+
+
+def gen_metrics(seed, tier):
+    """C18: random token strings (line feeds leading, trailing, repeated; rich chunks)."""
+    rng = random.Random(seed * 104729 + 18)
+    n = 400 if tier == "quick" else 20000
+    out = []
+    for _ in range(n):
+        k = rng.randint(0, 12)
+        parts = []
+        for _ in range(k):
+            parts.append("\n" if rng.random() < 0.4 else rng.choice(RICH))
+        out.append([{"op": "measure", "parts": parts}])
+    return out
+
+
+def rnd_obj(rng, words, caps=None):
+    if caps is None:
+        caps = [c for c in ["String", "GoString", "Error", "Height", "Width"] if rng.random() < 0.45]
+    return {"k": "obj", "caps": caps, "strv": rng.choice(words), "gov": rng.choice(words), "errv": rng.choice(words),
+            "h": rng.randint(-1, 4), "w": rng.randint(-1, 9)}
+
+
+OTHERS = ["int42", "int0", "negint", "int64big", "uint8", "float", "floatexp", "true", "false", "named", "namedempty",
+          "bytes", "struct", "structptr", "hidden", "strhidden", "strhiddenempty", "map", "emptymap", "slice",
+          "emptyslice", "marshaler", "nilptr", "complex", "error"]
+
+
+def gen_items(seed, tier):
+    """C01: items of every kind with rich payloads; mutate / update in random order."""
+    rng = random.Random(seed * 15485863 + 1)
+    n = 300 if tier == "quick" else 8000
+    out = []
+    for _ in range(n):
+        ops = [{"op": "newtable", "via": "core"}]
+        items = []
+        for _ in range(rng.randint(1, 4)):
+            r = rng.random()
+            if r < 0.3:
+                items.append(S(rng.choice(WORDS)))
+            elif r < 0.6:
+                items.append(rnd_obj(rng, WORDS))
+            elif r < 0.75:
+                items.append({"k": "other", "which": rng.choice(OTHERS)})
+            elif r < 0.8:
+                items.append({"k": "nil"})
+            elif r < 0.87:
+                items.append({"k": "rune", "s": rng.choice(["q", "é", "日", "\U0001F600"])})
+            else:
+                inner = rng.choice([S(rng.choice(WORDS)), rnd_obj(rng, WORDS), {"k": "nil"}])
+                d = {"k": "cell", "inner": inner}
+                if rng.random() < 0.3:
+                    d = {"k": "cell", "inner": d}
+                items.append(d)
+        asrow = rng.random() < 0.8
+        ops.append({"op": "rowitems" if asrow else "headers", "t": 1, "items": items})
+        for _ in range(rng.randint(0, 5)):
+            c = rng.randint(1, len(items))
+            ref = {"kind": "cell", "r": 1, "c": c} if asrow else {"kind": "hcell", "t": 1, "c": c}
+            if items[c - 1]["k"] == "obj" and rng.random() < 0.6:
+                ni = rnd_obj(rng, WORDS, caps=list(items[c - 1]["caps"]))
+                ops.append({"op": "mutate", "cell": ref, "item": ni})
+            else:
+                ops.append({"op": "update", "cell": ref})
+        out.append(ops)
+    return out
